@@ -59,7 +59,8 @@ Theorem C20_sweep_schedule : forall tc tick,
 Proof. exact sweep_due_iff. Qed.
 Print Assumptions C20_sweep_schedule.
 
-(* live, threadless: a connection with nothing pending that gets no further events is reaped at a time t with
+(* live, threadless: a connection with nothing pending that gets no further events — whatever OTHER works do,
+   whether or not their tasks stay unfinished ([it_unfinished] is unconstrained) — is reaped at a time t with
        last_activity + timeout < t <= max(first iteration, last_activity + timeout + delta) + ceil(cleanup/period) * delta
    when consecutive loop iterations are at most delta apart (whatever the tick counter was), and it is
    not alive at any iteration later than that bound *)
@@ -76,6 +77,25 @@ Theorem C20_live : forall tc c delta h tick it0 its,
   end.
 Proof. exact threadless_reaper_live. Qed.
 Print Assumptions C20_live.
+
+(* tasks left unfinished by _run_once (another work whose handle_events is suspended on a slow future, ...)
+   have no influence whatsoever on the tick counter, on whether the sweep runs, or on who is reaped:
+   C20_live above quantifies over every [it_unfinished] pattern, and iteration by iteration: *)
+Theorem C20_sweep_ignores_unfinished_tasks : forall tc c st e t b1 b2,
+  threadless_iter tc c st (mkIter e t b1) = threadless_iter tc c st (mkIter e t b2).
+Proof. reflexivity. Qed.
+Print Assumptions C20_sweep_ignores_unfinished_tasks.
+
+Theorem C20_reaping_ignores_unfinished_tasks : forall tc c its st (f g : loop_iter -> bool),
+  reaper_run tc c st (map (fun it => mkIter (it_ev it) (it_t it) (f it)) its) =
+  reaper_run tc c st (map (fun it => mkIter (it_ev it) (it_t it) (g it)) its).
+Proof. exact reaper_run_unfinished_irrelevant. Qed.
+Print Assumptions C20_reaping_ignores_unfinished_tasks.
+
+(* a work whose OWN task is in flight gets no new handle_events (it_ev = None) but is still asked
+   is_inactive() by every sweep; C20_safe applies to it unchanged: it is reaped under its suspended task
+   only if it has no output pending and its last client I/O is more than timeout ago — the idle
+   predicate of the property; a reply it might still be computing is not "undelivered output" yet. *)
 
 (* live, threaded: is_inactive() is evaluated before every _run_once, so the bound is one iteration *)
 Theorem C20_live_threaded : forall c sel delta its h tick it0,
@@ -98,7 +118,7 @@ Print Assumptions C20_live_threaded.
 Definition ex_tc : tcfg := mkTC 26000 1000000.
 Definition ex_cfg : cfg := mkCfg 65536 [] 10240 true.
 Fixpoint ex_iters (n : nat) (t : Z) : list loop_iter :=
-  match n with O => [] | S n' => mkIter None t :: ex_iters n' (t + 26) end.
+  match n with O => [] | S n' => mkIter None t (Nat.even n') :: ex_iters n' (t + 26) end.
 Example C20_nonvacuous :
   sweep_period ex_tc = 39 /\
   r_fate (reaper_run ex_tc ex_cfg (mkR (init 0) 0 Alive) (ex_iters 440 0)) = Reaped 11154 /\
